@@ -47,6 +47,15 @@ Theorem C20_flusher_not_blocked_after_request : forall cap s,
   req s = true -> fp s <> Done -> exists l s', flusher_label l /\ step cap s l = Some s'.
 Proof. exact FlushProofs.flusher_not_blocked_after_request. Qed.
 
+(* ... and, counted from FlushLogger's signal, [length of the queue + 1] of its steps suffice to write every entry whose
+   call had returned, however many entries other goroutines log meanwhile. (That these steps fit into FlushLogger's
+   one second depends on the scheduler and the writers' speed: outside the model.) *)
+Theorem C20_flush_bounded : forall cap l1 l2 s1 s2 s,
+  run cap init l1 = Some s1 -> step cap s1 Request = Some s2 -> run cap s2 l2 = Some s ->
+  (length (q s1) + 1 <= flusher_steps l2)%nat ->
+  forall e, In e (rets_of l1) -> In e (writes_of (l1 ++ Request :: l2)).
+Proof. exact FlushProofs.flush_bounded. Qed.
+
 (* FlushLogger is one-shot (known finding "second flush"): an entry logged after the acknowledged flush is never
    written, whatever follows — the flusher goroutine has returned; FlushProofs.logged_after_ack_witness is a
    concrete schedule *)
@@ -75,3 +84,4 @@ Print Assumptions C20_flusher_not_blocked_after_request.
 Print Assumptions C20_trace_validation_sound.
 Print Assumptions C20_tree_constants_in_range.
 Print Assumptions C20_logged_after_ack_never_written.
+Print Assumptions C20_flush_bounded.
